@@ -55,12 +55,13 @@ def generate(ck):
     rng = ck.rng
     nf, nt, ns = (90, 24, 40) if ck.tier == "quick" else (5000, 1000, 2000)
     descs = []
-    for _ in range(nf):
+    for i_f in range(nf):
         o = wl.oil_params(rng)
         pb = wl.bubblepoint(*o)
         Tpc, ppc = wl.pseudocritical(rng)
         p = np.concatenate([rng.uniform(15, pb, 3), [pb], rng.uniform(pb, min(2.5 * pb, 20000), 3)])
-        descs.append({"kind": "facade", "oil": o, "salinity": wl.f(rng.uniform(3, 25)), "Sw": wl.f(rng.random()), "Tpc": Tpc, "ppc": ppc, "p": [wl.f(v) for v in p]})
+        # (salinity over four decades: brackish and fresh waters of 0.003 .. 0.25 wt% are salinities too)
+        descs.append({"kind": "facade", "oil": o, "salinity": wl.f(rng.uniform(3, 25) / [1.0, 100.0, 1.0, 1000.0, 10.0][i_f % 5]), "Sw": wl.f(rng.random()), "Tpc": Tpc, "ppc": ppc, "p": [wl.f(v) for v in p]})
     for i in range(nt):
         comp = wl.gas_composition(rng)
         if ck.tier == "quick":
